@@ -6,7 +6,9 @@
 (* enumerates all of them: all RPC x shape combinations in every service state *)
 (* reachable by such a walk.  The orchestrator runs the finals that the model  *)
 (* says leave the state unchanged (chg = FALSE) back to back after one         *)
-(* execution of their common walk.                                             *)
+(* execution of their common walk.  A walk that joins an odd group consists of *)
+(* that join only and is followed by state-preserving finals only (the service *)
+(* that joined such a group is thrown away afterwards).                        *)
 EXTENDS ServiceAPI, Json
 
 CONSTANTS MaxWalk,   \* activation/deactivation steps before the final step
@@ -29,12 +31,12 @@ GHelp(fn, c) ==
 Toggle == {<<"ActivateGroup", Sh(k, "net", "-")>> : k \in GKnown} \cup {<<"DeactivateGroup", Sh(k, "-", "-")>> : k \in GKnown}
 OddJoin == {<<"MultiMemberGroupJoin", Sh("-", p, "-")>> : p \in OddKinds}
 
-WalkStep == /\ ~fin /\ Len(h) < MaxWalk
+WalkStep == /\ ~fin /\ Len(h) < MaxWalk /\ odd = "none"
             /\ \E w \in Toggle \cup (IF WithOdd /\ h = <<>> THEN OddJoin ELSE {}) :
                  GCall(w[1], w[2]) /\ state' # state
             /\ UNCHANGED fin
 FinalStep == /\ ~fin /\ fin' = TRUE
-             /\ \/ \E rpc \in RPC : \E a \in AllShapes(rpc) : GCall(rpc, a)
+             /\ \/ \E rpc \in RPC : \E a \in AllShapes(rpc) : GCall(rpc, a) /\ (odd # "none" => state' = state) /\ (odd' = odd)   \* an odd join is a walk step, never a final
                 \/ (h = <<>> /\ \E fn \in Helper : \E c \in HelperCls(fn) : GHelp(fn, c))
 
 GInit == Init /\ h = <<>> /\ fin = FALSE
